@@ -119,9 +119,15 @@ AInit  == resident = {} /\ last = NoLast /\ must = {}
 DocKeyDefined(dd, k, i) == ~SuppliedOnPath(dd, k, i) /\ \A r \in RootArgsOf(dd, i) : PHas(k, r) \/ HasDefault(dd, r)
 DocKeyArgs(dd, k, i)    == {<<r, IF PHas(k, r) THEN PGet(k, r) ELSE DefaultOf(dd, r)>> : r \in RootArgsOf(dd, i)}
 (* obs = [keys : Seq([o : Seq(name), args : Seq(<<name, value>>)]), size, cap]  read before the call; cap = 0: unbounded *)
+(* an observed key matches when its root-argument items are exactly the documented ones; further items are    *)
+(* tolerated only if they are not named like an argument of the pipeline (a repaired scheme may qualify the key) *)
 ObservedResident(dd, k, i, obs) ==
     /\ DocKeyDefined(dd, k, i)
-    /\ \E j \in DOMAIN obs.keys : obs.keys[j].o = dd.funcs[i].outputs /\ SeqToSet(obs.keys[j].args) = DocKeyArgs(dd, k, i)
+    /\ \E j \in DOMAIN obs.keys :
+          LET items == SeqToSet(obs.keys[j].args) IN
+          /\ obs.keys[j].o = dd.funcs[i].outputs
+          /\ {it \in items : it[1] \in RootArgsOf(dd, i)} = DocKeyArgs(dd, k, i)
+          /\ \A it \in items : it[1] \in RootArgsOf(dd, i) \/ it[1] \notin AllParams(dd) \cup AllOutputs(dd)
 (* nothing can be evicted during the call: every put of the call fits *)
 NoEviction(dd, k, o, obs) == obs.cap = 0 \/ obs.size + Cardinality({i \in Needed(dd, k, o) : Cached(dd, i)}) <= obs.cap
 SameCall(o, k, m) == last.valid /\ last.out = o /\ SeqToSet(last.kw) = SeqToSet(k) /\ last.mode = m
@@ -184,8 +190,11 @@ CMutate(m) == /\ phase = "idle" /\ MutApplicable(d, m)
 (*   hit  -> value taken from the cache, in pipeline(out) mode nothing upstream is visited;                       *)
 (*   miss -> arguments resolved (recursively), function executed, result stored under the key;                     *)
 (*   update_defaults / update_bound / replace leave pipeline.cache untouched.                                      *)
-(* Repaired design: no key when an intermediate on the function's dependency path is supplied; the function's own  *)
-(* bound values do not stand in for root arguments; update_bound and replace clear the cache.                      *)
+(* Repaired design (the proposed fixes):                                                                            *)
+(*   R1  no key (no caching) for a call that supplies an intermediate on the function's dependency path;            *)
+(*   R2  the function's own bound values do not stand in for root arguments that upstream functions receive;        *)
+(*   R3  the key also lists every bound value of the function and of the functions it depends on;                   *)
+(*   R4  replace clears the cache.  (update_defaults needs nothing: defaults of root arguments are in the key.)      *)
 
 Rep == Scheme = "repaired"
 NoKey == [o |-> <<>>, args |-> {}]
@@ -195,9 +204,13 @@ KeyVal(dd, k, i, r) == IF ~Rep /\ IsBound(dd, i, r) THEN PGet(dd.funcs[i].bound,
                        ELSE IF PHas(k, r) THEN PGet(k, r)
                        ELSE IF PHas(dd.funcs[i].defaults, r) THEN PGet(dd.funcs[i].defaults, r)
                        ELSE DefaultOf(dd, r)
+BoundItems(dd, i) == UNION {{<<"bound:" \o dd.funcs[j].name \o ":" \o p, PGet(dd.funcs[j].bound, p)>>
+                             : p \in PKeys(dd.funcs[j].bound)} : j \in Ancestors(dd, i)}
 ImplKey(dd, k, i) == IF (Rep /\ SuppliedOnPath(dd, k, i)) \/ \E r \in RootArgsOf(dd, i) : ~KeyHas(dd, k, i, r)
                      THEN NoKey
-                     ELSE [o |-> dd.funcs[i].outputs, args |-> {<<r, KeyVal(dd, k, i, r)>> : r \in RootArgsOf(dd, i)}]
+                     ELSE [o |-> dd.funcs[i].outputs,
+                           args |-> {<<r, KeyVal(dd, k, i, r)>> : r \in RootArgsOf(dd, i)}
+                                    \cup (IF Rep THEN BoundItems(dd, i) ELSE {})]
 
 (* the cache: a set of entries [k: key, v: Seq(value per output), pkw, pdv] (pkw, pdv: provenance for diagnosis)   *)
 CacheHas(c, key) == \E e \in c : e.k = key
@@ -243,7 +256,7 @@ IReturn(dd, k, hm, o, m) == IF m = "full" THEN {<<n, IVal(dd, k, hm, n)>> : n \i
 Required(dd, k, o, m)    == IF m = "full" THEN {<<n, ValOf(dd, k, n)>> : n \in FullOutputNames(dd, k, o)}
                             ELSE {<<o, Eval(dd, k, o)>>}
 (* the cache after a mutation *)
-ICacheMut(c, m) == IF Rep /\ m.kind \in {"update_bound", "replace"} THEN {} ELSE c
+ICacheMut(c, m) == IF Rep /\ m.kind = "replace" THEN {} ELSE c
 
 (* Coherent: every resident entry equals what an uncached evaluation of ANY call mapping to its key returns now. *)
 (* Calls: the set of calls <<o, k>> that succeed without caching on dd.  KeyTable lists, for every such call and  *)
